@@ -82,6 +82,20 @@ Definition c12_one (async_trait send : bool) (src : sig) (t : sig) (i : sig) : b
   else negb (s_async t) && opt_toks_eqb (s_output t) (s_output src) &&
        negb (s_async i) && opt_toks_eqb (s_output i) (s_output src).
 
+(** the trait side alone (used for the delegation-target trait, whose receivers differ from the source's) *)
+Definition c12_trait_one (async_trait send : bool) (src t : sig) : bool :=
+  if s_async src then
+    if async_trait then s_async t && opt_toks_eqb (s_output t) (s_output src)
+    else negb (s_async t) && opt_toks_eqb (s_output t) (Some (future_wrapper send (s_output src)))
+  else negb (s_async t) && opt_toks_eqb (s_output t) (s_output src).
+
+Fixpoint c12_trait_all (async_trait send : bool) (src ts : list sig) : bool :=
+  match src, ts with
+  | [], [] => true
+  | s :: src', t :: ts' => c12_trait_one async_trait send s t && c12_trait_all async_trait send src' ts'
+  | _, _ => false
+  end.
+
 Fixpoint c12_all (async_trait send : bool) (src ts is_ : list sig) : bool :=
   match src, ts, is_ with
   | [], [], [] => true
@@ -120,7 +134,10 @@ Definition view_C12 (c : ctx) (items : list item) : view :=
                              (map snd (trait_sigs tr)) (map (fun '(_, s, _) => s) (impl_fns im)) &&
                      sub_attrs_reapplied (h_attrs h) (t_attrs tr) (i_attrs im) &&
                      match ta_impl_trait a, ds with
-                     | Some _, d :: _ => sub_attrs_reapplied (h_attrs h) (t_attrs d) (i_attrs im)
+                     | Some _, d :: _ =>
+                         sub_attrs_reapplied (h_attrs h) (t_attrs d) (i_attrs im) &&
+                         (* the delegation-target trait gets the same async rewrite, honouring ?Send *)
+                         c12_trait_all (contains_async_trait (h_attrs h)) (future_send (ta_opts a)) sigs (map snd (trait_sigs d))
                      | _, _ => true
                      end)
                     (map (fun '(_, s) => kw (s_async s) "async" ++ print_output (s_output s))
